@@ -263,7 +263,7 @@ class Gen:
         self.rng = rng
         self.maxdepth = maxdepth
         all_f = ['classes', 'sep', 'lookahead', 'apply', 'where', 'longest', 'regex', 'rep',
-                 'template', 'optable', 'let', 'skip']
+                 'template', 'optable', 'let', 'skip', 'pylit']
         if features is None:
             features = {f for f in all_f if rng.random() < 0.6}
         self.features = set(features)
@@ -313,6 +313,8 @@ class Gen:
                 kinds += [('expect', 0.8), ('expectnot', 0.5)]
             if 'skip' in F:
                 kinds.append(('skip', 0.3))
+            if 'pylit' in F:
+                kinds.append(('pylit', 0.5))
         kinds += [('plus', 0.8), ('left', 0.8), ('right', 0.8)]
         if 'apply' in F:
             kinds.append(('apply', 0.8))
@@ -337,6 +339,9 @@ class Gen:
         d = depth + 1
         if kind == 'term':
             return self._terminal(consume)
+        if kind == 'pylit':
+            # a container literal in inline Python: must be a fresh object on every evaluation
+            return ['py', r.choice(['[]', '{}', '[1, 2]', '{"k": []}', '[[]]'])]
         if kind == 'ref':
             c = self._ref_candidates(rank, leftmost, consume)
             if c:
